@@ -8,8 +8,10 @@ import (
 	"context"
 	"fmt"
 	"net/http"
+	"runtime"
 	"strings"
 	"sync"
+	"syscall"
 	"testing"
 	"time"
 
@@ -139,6 +141,7 @@ func c18Scenario(c *choice.Ctx, rep *report.R, k c18Kind, depth int) {
 			abandon(tr, d, &calls)
 		}
 	}()
+	exhausted := false
 	closes, closeReturned := 0, 0
 	afterClose := map[int]bool{}
 	handled := map[int]int{}
@@ -195,6 +198,48 @@ func c18Scenario(c *choice.Ctx, rep *report.R, k c18Kind, depth int) {
 		}
 		if closes < 2 {
 			menu = append(menu, event{name: "close", fault: closes == 1, do: doClose})
+		}
+		// Close is slow in the middle (closing a socket takes a moment) and a pending dial completes meanwhile
+		if closes == 0 && d.Pending() > 0 {
+			for ci := 0; ci < d.NumConns(); ci++ {
+				impl := d.ImplEnd(ci)
+				if impl.IsClosed() {
+					continue
+				}
+				menu = append(menu, event{name: fmt.Sprintf("close-with-slow-socket-close(c%d)+dial-completes", ci), fault: true, do: func() {
+					impl.StallClose()
+					before := closeReturned
+					doClose()
+					// let Close run until it is parked inside the socket close (holding whatever it holds); other goroutines
+					// may meanwhile block on the transport's mutex, so quiescence cannot be awaited here
+					for i := 0; i < 100000 && impl.ClosesParked() == 0 && closeReturned == before; i++ {
+						hmu.Unlock()
+						runtime.Gosched()
+						hmu.Lock()
+					}
+					d.Release(true)
+					go func() {
+						// real time, not virtual: goroutines blocked on a mutex keep the bubble from idling
+						ts := syscall.NsecToTimespec(int64(3 * time.Millisecond))
+						syscall.Nanosleep(&ts, nil)
+						impl.ReleaseClose()
+					}()
+				}})
+				break
+			}
+		}
+		// non-initial state for the pipelined kinds: the live connection has used up its id space
+		if pt, ok := tr.(*PipelineTransport); ok && !exhausted && closes == 0 {
+			if pcs := poolConns(pt.pool); len(pcs) > 0 {
+				menu = append(menu, event{name: "conn-ids-exhausted", fault: true, do: func() {
+					exhausted = true
+					for _, pc := range pcs {
+						pc.m.Lock()
+						pc.nextQid = 65536
+						pc.m.Unlock()
+					}
+				}})
+			}
 		}
 		menu = append(menu, event{name: "advance2s", do: func() { hsleep(2 * time.Second) }})
 		ev := pick(c, menu)
@@ -279,7 +324,7 @@ func TestVerifC18(t *testing.T) {
 	defer rep.Write()
 	depth := report.ParamInt("DEPTH", 5)
 	bound := report.ParamInt("FAULTS", 2)
-	rep.Rule = fmt.Sprintf("E3: real pipeline-tcp, pipeline-udp, reuse-tcp, DoH (scripted RoundTripper + closer) and DoQ (fake quic connection) transports; all sequences of length <=%d over {start exchange (<=3), make the next dial complete late (dial function honouring / ignoring its context), late dial completes, server replies, Close, second Close, advance 2s} with <=%d deviations; "+
+	rep.Rule = fmt.Sprintf("E3: real pipeline-tcp, pipeline-udp, reuse-tcp, DoH (scripted RoundTripper + closer) and DoQ (fake quic connection) transports; all sequences of length <=%d over {start exchange (<=3), make the next dial complete late (dial function honouring / ignoring its context), late dial completes, server replies, Close, second Close, Close that is slow inside a socket close while a dial completes, connection id space exhausted (pipelined), advance 2s} with <=%d deviations; "+
 		"oracle after every event: Close returned (it runs in its own goroutine so a blocked Close is observed, not a harness deadlock), no panic, Close idempotent, exchanges started after Close fail in the same instant, exchanges in flight return by their deadline, "+
 		"every connection the dialer ever produced (including dials completing after Close) is closed without advancing the clock, the transport's closer was called", depth, bound)
 	bubble(t, func() {
